@@ -488,6 +488,7 @@ type Stmt struct {
 	Pairs   [][2]*Node `json:"pairs,omitempty"` // put
 	Keys    []*Node    `json:"keys,omitempty"`  // remove
 	NoSelKW bool       `json:"nosel,omitempty"` // bare `where P`
+	Semis   int        `json:"semis,omitempty"` // trailing semicolons
 }
 
 // Defs returns alias -> defining expression.
@@ -603,6 +604,12 @@ func (s *Stmt) Render() string {
 		}
 	default:
 		panic("render: unknown statement kind " + s.Kind)
+	}
+	for i := 0; i < s.Semis; i++ {
+		if i > 0 {
+			sb.WriteString(" ")
+		}
+		sb.WriteString(";")
 	}
 	return sb.String()
 }
